@@ -1,1 +1,109 @@
-(* C10 *)
+(* C10 - the generated module tree mirrors the template directory tree.  Theorems only. *)
+From Coq Require Import Lia Permutation.
+From Ructe Require Import Nom Utf8 Emit Compile Md5 Static Tables Build MapProofs StaticProofs BuildProofs.
+Local Open Scope list_scope.
+
+Section C10.
+  Variable uni_esc : N -> bool.
+  Variable compile : bytes -> bytes -> coutcome.
+  Variable rec : world -> bytes -> bytes -> bytes -> list (bytes * node) -> bres (world * bytes).
+  Hypothesis Hrec : framed rec.
+  Variable indir outdir : bytes.
+  Notation delta := (entry_delta uni_esc compile rec indir outdir).
+  Notation loop := (entries_loop uni_esc compile rec).
+
+  (* a file <stem>.rs.<ext> (ext in the suffix table regenerated from src/lib.rs) that parses
+     contributes exactly one generated file template_<stem>_<ext>.rs in the mirrored directory,
+     holding the code for the function <stem>_<ext>, one cargo line, and one declaration block *)
+  Theorem template_becomes_function : forall stem s content code,
+    In s template_suffixes -> utf8_valid (stem ++ s) = true ->
+    let name := stem ++ b "_" ++ skipn 4 s in
+    let path := indir ++ [47%N] ++ stem ++ s in
+    compile name content = Accepted code ->
+    delta (stem ++ s, File content) =
+      BOk _ ({| plan := [(pjoin outdir (b "template_" ++ name ++ b ".rs"), code)];
+                out := [Line (b "cargo:rerun-if-changed=" ++ path)]; reads := [path] |}, mod_decl name).
+  Proof.
+    intros stem s content code I V name path C.
+    rewrite (template_entry_delta uni_esc compile rec indir outdir stem s content I V). cbv zeta.
+    fold name. fold path. unfold handle_template. rewrite C. reflexivity.
+  Qed.
+
+  (* a template that fails to parse is reported with a cargo:warning naming the file followed by
+     the diagnostics; it contributes neither a file nor a declaration ... *)
+  Theorem broken_template_reported : forall stem s content diag,
+    In s template_suffixes -> utf8_valid (stem ++ s) = true ->
+    let name := stem ++ b "_" ++ skipn 4 s in
+    let path := indir ++ [47%N] ++ stem ++ s in
+    compile name content = Rejected diag ->
+    delta (stem ++ s, File content) =
+      BOk _ ({| plan := [];
+                out := [Line (b "cargo:rerun-if-changed=" ++ path);
+                        Line (b "cargo:warning=Template parse error in " ++ debug_str uni_esc path ++ b ":"); Raw diag];
+                reads := [path] |}, []).
+  Proof.
+    intros stem s content diag I V name path C.
+    rewrite (template_entry_delta uni_esc compile rec indir outdir stem s content I V). cbv zeta.
+    fold name. fold path. unfold handle_template. rewrite C. reflexivity.
+  Qed.
+
+  (* ... and does not disturb any other template: the rest of the directory is processed exactly as
+     if the entry were not there, apart from those stdout lines *)
+  Theorem broken_template_isolated : forall e rest w f d,
+    delta e = BOk _ (d, []) -> plan d = [] ->
+    loop w f indir outdir (e :: rest) = loop (wapp w d) f indir outdir rest /\ plan (wapp w d) = plan w.
+  Proof.
+    intros e rest w f d H P. split; [exact (loop_skip_entry uni_esc compile rec Hrec indir outdir w f e rest d H)|].
+    cbn. now rewrite P, app_nil_r.
+  Qed.
+
+  (* files with other names produce nothing at all *)
+  Theorem other_files_ignored : forall w f filename content rest,
+    forallb (fun s => negb (ends_with filename s)) template_suffixes = true ->
+    loop w f indir outdir ((filename, File content) :: rest) = loop w f indir outdir rest.
+  Proof. intros. now apply entries_loop_other_file. Qed.
+
+  (* a sub-directory becomes a module of the same name: its mod.rs starts with the Html/ToHtml
+     re-import and the parent declares `pub mod <name>;` *)
+  Theorem subdir_becomes_module : forall name sub w2 modrs,
+    utf8_valid name = true ->
+    rec (announce_read w_empty (indir ++ [47%N] ++ name)) modrs_header (indir ++ [47%N] ++ name) (pjoin outdir name) sub = BOk _ (w2, modrs) ->
+    delta (name, Dir sub) =
+      BOk _ (write_if_changed w2 (pjoin (pjoin outdir name) (b "mod.rs")) modrs, b "pub mod " ++ name ++ b ";" ++ [10%N; 10%N]).
+  Proof. intros name sub w2 modrs V H. unfold entry_delta. cbn [entries_loop]. rewrite V, H. reflexivity. Qed.
+
+  (* a directory is the sum of its entries: when every entry succeeds, the generated files, the
+     stdout and the declaration text are the concatenation of the entries' own contributions *)
+  Theorem directory_is_sum_of_entries : forall es w f deltas,
+    Forall2 (fun e dg => delta e = BOk _ dg) es deltas ->
+    loop w f indir outdir es = BOk _ (wapp w (sum_w deltas), f ++ sum_f deltas).
+  Proof. exact (loop_all_ok uni_esc compile rec Hrec indir outdir). Qed.
+End C10.
+
+(* handle_entries satisfies the framing hypothesis at every depth, so the theorems above apply to
+   the real recursion *)
+Theorem handle_entries_is_framed : forall uni_esc compile fuel, framed (handle_entries uni_esc compile fuel).
+Proof. exact handle_entries_frame. Qed.
+
+(* the same stem under different suffixes gives different functions; a whole tree *)
+Example same_stem_different_suffix :
+  let tree := [(b "a.rs.html", File (b "H")); (b "a.rs.svg", File (b "S")); (b "notes.txt", File (b "x"));
+               (b "sub", Dir [(b "b.rs.xml", File (b "X")); (b "bad.rs.html", File (b "!"))])] in
+  let compile := fun name content => match content with [33%N] => Rejected (b "D") | _ => Accepted (name ++ b ":" ++ content) end in
+  match handle_entries (fun _ => false) compile 3 w_empty [] (b "/i/t") (b "templates") tree with
+  | BOk _ (w, f) =>
+      map fst (plan w) = [b "templates/template_a_html.rs"; b "templates/template_a_svg.rs";
+                          b "templates/sub/template_b_xml.rs"; b "templates/sub/mod.rs"] /\
+      map snd (plan w) = [b "a_html:H"; b "a_svg:S"; b "b_xml:X"; modrs_header ++ mod_decl (b "b_xml")] /\
+      f = mod_decl (b "a_html") ++ mod_decl (b "a_svg") ++ b "pub mod sub;" ++ [10%N; 10%N]
+  | _ => False
+  end.
+Proof. vm_compute. repeat split; reflexivity. Qed.
+
+Redirect "assumptions/C10.template_becomes_function" Print Assumptions template_becomes_function.
+Redirect "assumptions/C10.broken_template_reported" Print Assumptions broken_template_reported.
+Redirect "assumptions/C10.broken_template_isolated" Print Assumptions broken_template_isolated.
+Redirect "assumptions/C10.other_files_ignored" Print Assumptions other_files_ignored.
+Redirect "assumptions/C10.subdir_becomes_module" Print Assumptions subdir_becomes_module.
+Redirect "assumptions/C10.directory_is_sum_of_entries" Print Assumptions directory_is_sum_of_entries.
+Redirect "assumptions/C10.handle_entries_is_framed" Print Assumptions handle_entries_is_framed.
